@@ -147,6 +147,9 @@ class MasterWorld:
         if key not in _BASE_CACHE:
             _BASE_CACHE[key] = build_base(cfg)
             CLOCK.reset()
+            # building the base tree ran real code (masterapi, zkutils):
+            # whatever it left at module level is not part of any history
+            modstate.reset()
         self.tree = _BASE_CACHE[key].clone()
         self.admin = fakezk.Client(self.tree, ADMIN_SID)
         self.monitors = cfg.get('monitors', [])
